@@ -1,6 +1,7 @@
 (* C13 — Accounting: counters conserve requests; in-flight gauges return to zero.
    Statements only; proofs in Proofs/LBProofs.v and Proofs/AccountingProofs.v. *)
 From Helios Require Import Base.Prelude Model.Strategy Model.LB Proofs.LBProofs Proofs.AccountingProofs.
+From Helios Require Import Gen.BackendGen Proofs.BackendRefine.
 
 (* Conservation law, for every configuration and every history of the composite balancer model
    (requests of any clients overlapping arbitrarily, any outcomes incl. aborted responses, rate-limited,
@@ -94,3 +95,18 @@ Example C13_clean_nonvacuous :
   /\ let s := fst (lb_run refute_cfg (lb_init refute_cfg RR 0) ops) in
      (m_gauge (bm_get s 4), cntn 4 (infl s), m_total (bm_get s 4), sent refute_cfg 4 (lb_init refute_cfg RR 0) ops) = (1, 1, 1, 2).
 Proof. split; [cbn; repeat split; intros; reflexivity|vm_compute; reflexivity]. Qed.
+
+(* The gauge steps of the model are the source: Gen/BackendGen.v is regenerated from loadbalancer.go on every run
+   (IncrementConnections, DecrementConnections, GetActiveConnections, markedHealthy of one backend object): dispatch adds one to the
+   object's gauge, completion takes one off, reading changes nothing - and nothing else of the object moves *)
+Theorem C13_gauge_steps_are_source :
+  forall b now,
+    fst (bo_IncrementConnections (abs_bo b) now) = abs_bo (set_active (bactive b + 1) b)
+    /\ fst (bo_DecrementConnections (abs_bo b) now) = abs_bo (set_active (bactive b - 1) b)
+    /\ bo_GetActiveConnections (abs_bo b) now = (abs_bo b, bactive b)
+    /\ fst (bo_DecrementConnections (fst (bo_IncrementConnections (abs_bo b) now)) now) = abs_bo b.
+Proof.
+  intros b now. split; [apply increment_is_plus_one|]. split; [apply decrement_is_minus_one|].
+  split; [apply active_connections_is_gauge|apply increment_decrement].
+Qed.
+Print Assumptions C13_gauge_steps_are_source.
